@@ -89,16 +89,38 @@ theorem rt_WatchResult (m : PWatchResult) (h : m.accepts = true) (hw : m.wireOk 
   cases src with
   | none => simp at h
   | some n =>
+    have hn : inEnum n = true := by simpa using h.2
+    have c2 : ([2, 3] : List Nat).contains 2 = true := by decide
+    have c3 : ([2, 3] : List Nat).contains 3 = true := by decide
+    have n1 : ([2, 3] : List Nat).contains 1 = false := by decide
+    have n4 : ([2, 3] : List Nat).contains 4 = false := by decide
+    have n5 : ([2, 3] : List Nat).contains 5 = false := by decide
     cases er with
     | some t =>
       cases g with
       | some _ => simp at hw
       | none =>
-        simp [decWatchResultRecs, encWatchResult, sel_append, sel_fld, dStr_pStr, dOptStr_pOptStr, dOptBool_pOptBool,
-          dEnum_pEnum, h, dOptMsg, lastLen, allLen]
+        have lf : lastField [2, 3] (encWatchResult ⟨e, none, some t, fm, some n⟩) = some 3 := by
+          simp [encWatchResult, lastField_append, lastField_fld_notin _ _ _ n1, lastField_fld_notin _ _ _ n4,
+            lastField_fld_notin _ _ _ n5, lastField_fld_nil, pOptStr, lastField_fld_one _ _ _ c3]
+        simp [decWatchResultRecs, oneofPick, lf]
+        simp [encWatchResult, sel_append, sel_fld, dStr_pStr, dOptStr_pOptStr, dOptBool_pOptBool,
+          dEnum_pEnum n hn, h, dOptMsg, lastLen, allLen]
     | none =>
-      simp [decWatchResultRecs, encWatchResult, sel_append, sel_fld, dStr_pStr, dOptStr_pOptStr, dOptBool_pOptBool,
-        dEnum_pEnum, l1, h]
+      cases g with
+      | none =>
+        have lf : lastField [2, 3] (encWatchResult ⟨e, none, none, fm, some n⟩) = none := by
+          simp [encWatchResult, lastField_append, lastField_fld_notin _ _ _ n1, lastField_fld_notin _ _ _ n4,
+            lastField_fld_notin _ _ _ n5, lastField_fld_nil, pOptStr, pOptMsg]
+        simp [decWatchResultRecs, oneofPick, lf]
+        simp [encWatchResult, sel_append, sel_fld, dStr_pStr, dOptBool_pOptBool, dEnum_pEnum n hn, h]
+      | some v =>
+        have lf : lastField [2, 3] (encWatchResult ⟨e, some v, none, fm, some n⟩) = some 2 := by
+          simp [encWatchResult, lastField_append, lastField_fld_notin _ _ _ n1, lastField_fld_notin _ _ _ n4,
+            lastField_fld_notin _ _ _ n5, lastField_fld_nil, pOptStr, pOptMsg, lastField_fld_one _ _ _ c2]
+        simp [decWatchResultRecs, oneofPick, lf]
+        have l1' : dOptMsg decVariableID (pOptMsg (some (encVariableID v))) = some (some v) := by simpa using l1
+        simp [encWatchResult, sel_append, sel_fld, dStr_pStr, dOptBool_pOptBool, dEnum_pEnum n hn, l1', h]
 
 /-! ### AnyValue / ArrayValue / KeyValueList (recursive; the decoder's fuel is the byte length) -/
 
